@@ -309,7 +309,8 @@ class AppError(Exception):
     """an application's own exception class, bound to a name in the namespace"""
 
 
-EXC.update({'Cancelled': Cancelled, 'AppError': AppError, 'MultiError': MultiError, 'DeepMultiError': DeepMultiError, 'UnsupportedOperation': io.UnsupportedOperation,
+import zExceptions  # noqa
+EXC.update({'Redirect': zExceptions.Redirect, 'NotFound': zExceptions.NotFound, 'Cancelled': Cancelled, 'AppError': AppError, 'MultiError': MultiError, 'DeepMultiError': DeepMultiError, 'UnsupportedOperation': io.UnsupportedOperation,
             'OSError': OSError})
 
 
